@@ -557,6 +557,5 @@ func runCachePut(tier string, seed int64, model string, replay string) *corr.Res
 	if tier == "thorough" {
 		h.runRealOS()
 	}
-	res.Extra["disagreement_properties"] = []string{"C12", "C11"}
 	return res
 }
